@@ -96,8 +96,11 @@ package envelope
 // the shares handed to the interpolation have pairwise different IDs as field elements (circl's
 // Lagrange interpolation panics on a repeated x): every collected ID is a scalar made here, its
 // canonical encoding is a key of `seen`, and no two collected IDs hold the same element
+//@   loop 1 invariant forall i int trigger collected[i].Value :: 0 <= i && i < len(collected) ==> collected[i].Value != nil
 //@   loop 1 invariant forall i int trigger collected[i].ID :: 0 <= i && i < len(collected) ==> collected[i].ID != nil && scalarLive[collected[i].ID] == 1 && (hexEnc(scalarEnc(scalarVal[collected[i].ID])) in seen)
+//@   loop 2 invariant forall i int trigger collected[i].Value :: 0 <= i && i < len(collected) ==> collected[i].Value != nil
 //@   loop 2 invariant forall i int trigger collected[i].ID :: 0 <= i && i < len(collected) ==> collected[i].ID != nil && scalarLive[collected[i].ID] == 1 && (hexEnc(scalarEnc(scalarVal[collected[i].ID])) in seen)
+//@   loop 3 invariant forall i int trigger collected[i].Value :: 0 <= i && i < len(collected) ==> collected[i].Value != nil
 //@   loop 3 invariant forall i int trigger collected[i].ID :: 0 <= i && i < len(collected) ==> collected[i].ID != nil && scalarLive[collected[i].ID] == 1 && (hexEnc(scalarEnc(scalarVal[collected[i].ID])) in seen)
 //@   loop 1 invariant forall i int, j int trigger collected[i].ID, collected[j].ID :: 0 <= i && i < j && j < len(collected) ==> scalarVal[collected[i].ID] != scalarVal[collected[j].ID]
 //@   loop 2 invariant forall i int, j int trigger collected[i].ID, collected[j].ID :: 0 <= i && i < j && j < len(collected) ==> scalarVal[collected[i].ID] != scalarVal[collected[j].ID]
